@@ -61,9 +61,12 @@ class Entry:
                 before_return[a.strip()] = t
             elif n in ("after_stmt", "before_stmt"):
                 lines = t.split("\n")
-                assert lines[0].startswith("@ "), "anchor line expected in %s of %s" % (n, self.key)
-                (after_stmt if n == "after_stmt" else before_stmt).append(
-                    {"anchor": lines[0][2:].strip(), "text": "\n".join(lines[1:])})
+                m = re.match(r"^@(\d*) (.*)$", lines[0])
+                assert m, "anchor line expected in %s of %s" % (n, self.key)
+                d = {"anchor": m.group(2).strip(), "text": "\n".join(lines[1:])}
+                if m.group(1):
+                    d["occurrence"] = int(m.group(1))
+                (after_stmt if n == "after_stmt" else before_stmt).append(d)
         if loops:
             o["loops"] = loops
         if closures:
